@@ -29,7 +29,8 @@ RULE = (
     'and at least one automatic muck or kill; distinct by (game, players, '
     'mode, boards, operation-kind sequence).')
 ASSUMPTIONS = [
-    'hand strength from the engine evaluator on the tabled cards (C04/C05)',
+    'hand strength from the independent evaluator of C04/C05 '
+    '(vflib.ref.handrank)',
     'payout constraints as in C02 (the model never reads State.pots)',
 ]
 CASES = {'quick': 11000, 'thorough': 150000}
